@@ -18,14 +18,271 @@ variable {K : Type} [Field K] [LinearOrder K] [IsStrictOrderedRing K] [FloorRing
 def StreamWF (s : StreamIn K) : Prop :=
   1 ≤ s.windows.length ∧ ∀ st ∈ s.stream, s.vectorLength * s.windows.length ≤ st.params.length
 
+/-- a left fold whose step conses exactly one element onto the first component -/
+theorem foldl_fst_length {A σ β : Type} (step : List A × σ → β → List A × σ)
+    (hstep : ∀ acc b, (step acc b).1.length = acc.1.length + 1) (l : List β) (init : List A × σ) :
+    (l.foldl step init).1.length = init.1.length + l.length := by
+  induction l generalizing init with
+  | nil => simp
+  | cons b l ih => rw [List.foldl_cons, ih, hstep]; simp; omega
+
 /-- one vocoder frame always yields exactly `fperiod` samples -/
 theorem vocoderSynth_length (fx : Fix) (v : VocoderSt K) (lf0 : K) (sp lpf : List K) :
     (vocoderSynth fx v lf0 sp lpf).1.length = v.fperiod := by
-  sorry
+  unfold vocoderSynth
+  simp only [List.length_reverse]
+  split <;>
+  · rw [foldl_fst_length _ (fun acc b => by simp)]
+    simp
 
 theorem vocoderFrame_length (fx : Fix) (fp : Nat) (v : VocoderSt K) (f : List K × List K × List K) :
     (vocoderFrame fx fp v f).2.length = fp := by
-  sorry
+  unfold vocoderFrame
+  simp only
+  rw [vocoderSynth_length]
+
+theorem isZero_iff (x : K) : isZero x = true ↔ x = 0 := by
+  unfold isZero
+  simp only [Bool.and_eq_true, Bool.not_eq_true', decide_eq_false_iff_not, not_lt, decide_eq_true_eq]
+  constructor
+  · rintro ⟨⟨h1, h2⟩, _⟩; exact le_antisymm h2 h1
+  · rintro rfl; exact ⟨⟨le_refl _, le_refl _⟩, le_refl _⟩
+
+/-! ### length bookkeeping for MLPG -/
+
+theorem maskCreate_length (stream : List (StateParam K)) (thr : K) (durs : List Nat)
+    (hd : durs.length ≤ stream.length) : (maskCreate stream thr durs).length = durs.sum := by
+  unfold maskCreate
+  rw [expand_length _ _ (by simpa using hd)]
+
+theorem boundaryDistances_length (mask : List Bool) : (boundaryDistances mask).length = mask.length := by
+  simp [boundaryDistances, leftDists_length]
+
+theorem windowParams_length (vl : Nat) (stream : List (StateParam K)) (durs : List Nat) (mask : List Bool)
+    (bd : List (Nat × Nat)) (wi : Nat) (win : List K) (m : Nat) (hd : durs.length ≤ stream.length)
+    (hm : mask.length = durs.sum) (hb : bd.length = durs.sum) :
+    (windowParams vl stream durs mask bd wi win m).length = (mask.filter id).length := by
+  unfold windowParams
+  simp only
+  apply filterBy_length
+  rw [List.length_map, List.length_zip, expand_length _ _ (by simpa using hd), hb, hm]
+  simp
+
+theorem calcWuwWum_cons (windows : List (List K)) (o0 : List (MeanVari K)) (obs : List (List (MeanVari K))) :
+    ∃ mtx, calcWuwWum windows (o0 :: obs) = some mtx ∧ mtx.length = o0.length ∧
+      mtx.wuw.length = o0.length ∧ mtx.wum.length = o0.length := by
+  refine ⟨_, rfl, ?_, ?_, ?_⟩ <;> simp
+
+theorem solve_length (m : MlpgMatrix K) (n : Nat) (h1 : m.wuw.length = n) (h2 : m.wum.length = n) :
+    m.solve.length = n := by
+  unfold MlpgMatrix.solve
+  simp only [backwardSub_length, forwardSub_length, ldlRows_length, h1, h2]
+  simp
+
+theorem foldl_length_inv {β γ : Type} (step : List γ → β → List γ) (n : Nat)
+    (h : ∀ g b, g.length = n → (step g b).length = n) (l : List β) (g0 : List γ) (h0 : g0.length = n) :
+    (l.foldl step g0).length = n := by
+  induction l generalizing g0 with
+  | nil => simpa using h0
+  | cons b l ih => rw [List.foldl_cons]; exact ih _ (h _ _ h0)
+
+theorem hmmobjDerivative_length (m : MlpgMatrix K) (par : List K) (n : Nat) (h1 : m.wuw.length = n)
+    (h2 : m.length = n) (hp : par.length = n) : (hmmobjDerivative m par).2.length = n := by
+  unfold hmmobjDerivative
+  simp only
+  apply foldl_length_inv
+  · intro g b hg
+    simp only [List.length_map, List.length_zip, List.length_append, List.length_take, List.length_replicate,
+      shiftLeft, shiftRight, List.length_drop, hg, h1, h2, hp]
+    omega
+  · simp [h1, hp]
+
+theorem gvNextStep_length (m : MlpgMatrix K) (par : List K) (sw : List Bool) (g : List K)
+    (step mean vari gm gv : K) (n : Nat) (h1 : m.wuw.length = n) (h2 : m.wum.length = n)
+    (hp : par.length = n) (hs : sw.length = n) (hg : g.length = n) :
+    (gvNextStep m par sw g step mean vari gm gv).length = n := by
+  unfold gvNextStep
+  simp [h1, h2, hp, hs, hg]
+
+theorem convGv_length (par : List K) (sw : List Bool) (gvLen : Nat) (gm : K) :
+    (convGv par sw gvLen gm).length = min par.length sw.length := by
+  unfold convGv
+  simp
+
+theorem gvLoop_length (m : MlpgMatrix K) (sw : List Bool) (gm gv : K) (gvLen : Nat) (half sd si : K)
+    (n : Nat) (h1 : m.wuw.length = n) (h2 : m.wum.length = n) (h3 : m.length = n) (hs : sw.length = n)
+    (fuel : Nat) : ∀ (i : Nat) (par : List K) (step prev : K), par.length = n →
+      (gvParmgen.loop m sw gm gv gvLen half sd si i fuel par step prev).length = n := by
+  induction fuel with
+  | zero => intro i par step prev hp; simpa [gvParmgen.loop] using hp
+  | succ fuel ih =>
+    intro i par step prev hp
+    rw [gvParmgen.loop]
+    simp only
+    apply ih
+    exact gvNextStep_length _ _ _ _ _ _ _ _ _ n h1 h2 hp hs (hmmobjDerivative_length m par n h1 h3 hp)
+
+theorem gvParmgen_length (m : MlpgMatrix K) (par : List K) (sw : List Bool) (gm gv : K)
+    (n : Nat) (h1 : m.wuw.length = n) (h2 : m.wum.length = n) (h3 : m.length = n) (hp : par.length = n)
+    (hs : sw.length = n) : (gvParmgen m par sw gm gv).length = n := by
+  unfold gvParmgen
+  simp only
+  split
+  · exact hp
+  · apply gvLoop_length m sw _ _ _ _ _ _ n h1 h2 h3 hs
+    rw [convGv_length, hp, hs]; simp
+
+
+theorem par_length (mtx : MlpgMatrix K) (gv : Option (List (MeanVari K) × List Bool)) (m : Nat) (gw : K)
+    (durs : List Nat) (mask : List Bool) (n : Nat) (h1 : mtx.wuw.length = n) (h2 : mtx.wum.length = n)
+    (h3 : mtx.length = n)
+    (hsw : ∀ g sw, gv = some (g, sw) → (filterBy (expand sw durs) mask).length = n) :
+    (mtx.par gv m gw durs mask).length = n := by
+  unfold MlpgMatrix.par
+  cases gv with
+  | none => exact solve_length mtx n h1 h2
+  | some p =>
+    obtain ⟨g, sw⟩ := p
+    simp only
+    exact gvParmgen_length _ _ _ _ _ n h1 h2 h3 (solve_length mtx n h1 h2) (hsw g sw rfl)
+
+/-- one column (vector index `m`) of `mlpgCreate` -/
+def mlpgCol (gw thr : K) (s : StreamIn K) (durs : List Nat) (m : Nat) : Option (List K) :=
+  let mask := maskCreate s.stream thr durs
+  let bd := boundaryDistances mask
+  let obs := (List.range s.windows.length).zip s.windows |>.map fun (wi, win) =>
+    windowParams s.vectorLength s.stream durs mask bd wi win m
+  match calcWuwWum s.windows obs with
+  | none => none
+  | some mtx => maskFill mask (mtx.par s.gv m gw durs mask) Consts.nodata
+
+theorem mlpgCreate_eq (gw thr : K) (s : StreamIn K) (durs : List Nat) :
+    mlpgCreate gw thr s durs =
+      if s.vectorLength > 0 ∧ s.windows.length > 0 ∧ ((s.stream.zip durs).map (·.1)).any
+          (fun st => decide (st.params.length < s.vectorLength * s.windows.length)) then
+        .panic "mlpg_adjust/mod.rs:curr_stream[m]"
+      else if s.vectorLength > 0 ∧ s.windows.length = 0 then .panic "mlpg.rs:parameters[0]"
+      else if ((List.range s.vectorLength).map (mlpgCol gw thr s durs)).any Option.isNone then
+        .panic "mask.rs:fill expect"
+      else .ok ((List.range (maskCreate s.stream thr durs).length).map fun t =>
+        (((List.range s.vectorLength).map (mlpgCol gw thr s durs)).map fun c => c.getD []).map
+          fun c => c.getD t 0) := rfl
+
+theorem mlpgCol_some (gw thr : K) (s : StreamIn K) (durs : List Nat) (m : Nat) (hw : 1 ≤ s.windows.length)
+    (hd : durs.length ≤ s.stream.length)
+    (hgv : ∀ g sw, s.gv = some (g, sw) → durs.length ≤ sw.length) :
+    ∃ r, mlpgCol gw thr s durs m = some r ∧ r.length = (maskCreate s.stream thr durs).length := by
+  unfold mlpgCol
+  simp only
+  have hml := maskCreate_length s.stream thr durs hd
+  generalize maskCreate s.stream thr durs = mask at *
+  generalize hobs : List.map _ ((List.range s.windows.length).zip s.windows) = obs
+  have hall : ∀ o ∈ obs, o.length = (mask.filter id).length := by
+    rw [← hobs]; intro o ho
+    simp only [List.mem_map] at ho
+    obtain ⟨⟨wi, win⟩, _, rfl⟩ := ho
+    exact windowParams_length _ _ _ _ _ _ _ _ hd hml (by rw [boundaryDistances_length, hml])
+  have hne : obs.length = s.windows.length := by rw [← hobs]; simp
+  cases obs with
+  | nil => simp at hne; omega
+  | cons o0 rest =>
+    obtain ⟨mtx, hm, h3, h1, h2⟩ := calcWuwWum_cons s.windows o0 rest
+    rw [hm]
+    simp only
+    have ho := hall o0 (by simp)
+    have hpar : (mtx.par s.gv m gw durs mask).length = (mask.filter id).length := by
+      apply par_length _ _ _ _ _ _ _ (h1.trans ho) (h2.trans ho) (h3.trans ho)
+      intro g sw hg
+      apply filterBy_length
+      rw [expand_length _ _ (hgv g sw hg), hml]
+    obtain ⟨r, hr, hlen, -⟩ := maskFill_spec mask _ Consts.nodata hpar
+    exact ⟨r, hr, hlen⟩
+
+theorem maskFill_nodata {β : Type} (mask : List Bool) (xs : List β) (d : β) (r : List β)
+    (h : maskFill mask xs d = some r) (f : Nat) (hf : mask[f]? = some false) : r[f]? = some d := by
+  induction mask generalizing xs r f with
+  | nil => simp at hf
+  | cons b ms ih =>
+    cases b with
+    | true =>
+      cases xs with
+      | nil => simp [maskFill] at h
+      | cons x xs =>
+        simp only [maskFill, Option.map_eq_some_iff] at h
+        obtain ⟨r', hr', rfl⟩ := h
+        cases f with
+        | zero => simp at hf
+        | succ f => simpa using ih xs r' hr' f (by simpa using hf)
+    | false =>
+      simp only [maskFill, Option.map_eq_some_iff] at h
+      obtain ⟨r', hr', rfl⟩ := h
+      cases f with
+      | zero => simp
+      | succ f => simpa using ih xs r' hr' f (by simpa using hf)
+
+theorem mlpgCol_nodata (gw thr : K) (s : StreamIn K) (durs : List Nat) (m : Nat) (r : List K)
+    (h : mlpgCol gw thr s durs m = some r) (f : Nat)
+    (hf : (maskCreate s.stream thr durs)[f]? = some false) : r[f]? = some Consts.nodata := by
+  unfold mlpgCol at h
+  simp only at h
+  split at h
+  · simp at h
+  · exact maskFill_nodata _ _ _ _ h f hf
+
+
+theorem mlpgCreate_shape_partial (gw thr : K) (s : StreamIn K) (durs : List Nat) (hwf : StreamWF s)
+    (hd : durs.length ≤ s.stream.length)
+    (hgv : ∀ g sw, s.gv = some (g, sw) → durs.length ≤ sw.length) :
+    ∃ rows, mlpgCreate gw thr s durs = .ok rows ∧ rows.length = durs.sum ∧
+      ∀ r ∈ rows, r.length = s.vectorLength := by
+  obtain ⟨hw, hst⟩ := hwf
+  rw [mlpgCreate_eq]
+  have g1 : ¬ (s.vectorLength > 0 ∧ s.windows.length > 0 ∧ ((s.stream.zip durs).map (·.1)).any
+      (fun st => decide (st.params.length < s.vectorLength * s.windows.length)) = true) := by
+    rintro ⟨_, _, h⟩
+    simp only [List.any_eq_true, List.mem_map, decide_eq_true_eq] at h
+    obtain ⟨st, ⟨⟨a, b⟩, hab, rfl⟩, hlt⟩ := h
+    have := hst a (List.of_mem_zip hab).1
+    simp only at hlt
+    omega
+  have g2 : ¬ (s.vectorLength > 0 ∧ s.windows.length = 0) := by omega
+  have g3 : ((List.range s.vectorLength).map (mlpgCol gw thr s durs)).any Option.isNone = false := by
+    rw [List.any_eq_false]
+    intro c hc
+    simp only [List.mem_map] at hc
+    obtain ⟨m, _, rfl⟩ := hc
+    obtain ⟨r, hr, _⟩ := mlpgCol_some gw thr s durs m hw hd hgv
+    simp [hr]
+  rw [if_neg g1, if_neg g2, g3]
+  simp only [Bool.false_eq_true, if_false]
+  refine ⟨_, rfl, ?_, ?_⟩
+  · simp [maskCreate_length _ _ _ hd]
+  · intro r hr
+    simp only [List.mem_map] at hr
+    obtain ⟨t, _, rfl⟩ := hr
+    simp
+
+/-- what an `.ok` result of `mlpgCreate` looks like -/
+theorem mlpgCreate_ok (gw thr : K) (s : StreamIn K) (durs : List Nat) (rows : List (List K))
+    (h : mlpgCreate gw thr s durs = .ok rows) :
+    ((List.range s.vectorLength).map (mlpgCol gw thr s durs)).any Option.isNone = false ∧
+    rows = (List.range (maskCreate s.stream thr durs).length).map fun t =>
+        (((List.range s.vectorLength).map (mlpgCol gw thr s durs)).map fun c => c.getD []).map
+          fun c => c.getD t 0 := by
+  rw [mlpgCreate_eq] at h
+  split_ifs at h with h1 h2 h3
+  simp only [Outcome.ok.injEq] at h
+  exact ⟨by simpa using h3, h.symm⟩
+
+theorem mlpgCreate_ok_length (gw thr : K) (s : StreamIn K) (durs : List Nat) (rows : List (List K))
+    (h : mlpgCreate gw thr s durs = .ok rows) :
+    rows.length = (maskCreate s.stream thr durs).length ∧ ∀ r ∈ rows, r.length = s.vectorLength := by
+  obtain ⟨-, rfl⟩ := mlpgCreate_ok gw thr s durs rows h
+  refine ⟨by simp, ?_⟩
+  intro r hr
+  simp only [List.mem_map] at hr
+  obtain ⟨t, _, rfl⟩ := hr
+  simp
 
 /-- MLPG never panics on a well-formed stream and returns one row of `vector_length` values per frame. -/
 theorem mlpgCreate_shape (gw thr : K) (s : StreamIn K) (durs : List Nat) (hwf : StreamWF s)
@@ -39,17 +296,35 @@ theorem mlpgCreate_nodata (gw thr : K) (s : StreamIn K) (durs : List Nat) (rows 
     (h : mlpgCreate gw thr s durs = .ok rows) (f : Nat)
     (hm : (maskCreate s.stream thr durs)[f]? = some false) :
     rows[f]? = some (List.replicate s.vectorLength Consts.nodata) := by
-  sorry
+  obtain ⟨hsome, rfl⟩ := mlpgCreate_ok gw thr s durs rows h
+  have hf : f < (maskCreate s.stream thr durs).length := by
+    by_contra hc
+    rw [List.getElem?_eq_none (by omega)] at hm
+    simp at hm
+  rw [List.getElem?_map, List.getElem?_range hf]
+  simp only [Option.map_some, Option.some.injEq, List.map_map]
+  rw [← List.length_range (n := s.vectorLength), ← List.map_const', List.length_range]
+  apply List.map_congr_left
+  intro m hmem
+  simp only [Function.comp]
+  rw [List.any_eq_false] at hsome
+  have := hsome (mlpgCol gw thr s durs m) (List.mem_map.2 ⟨m, hmem, rfl⟩)
+  cases hc : mlpgCol gw thr s durs m with
+  | none => simp [hc] at this
+  | some r =>
+    have hr := mlpgCol_nodata gw thr s durs m r hc f hm
+    simp [List.getD_eq_getElem?_getD, hr]
 
 /-- a stream without GV ignores the GV weight -/
 theorem mlpgCreate_no_gv (gw gw' thr : K) (s : StreamIn K) (durs : List Nat) (h : s.gv = none) :
     mlpgCreate gw thr s durs = mlpgCreate gw' thr s durs := by
-  sorry
+  simp only [mlpgCreate, MlpgMatrix.par, h]
 
 /-- no eligible frame: the GV stage returns the plain ML solution -/
 theorem gvParmgen_no_eligible (m : MlpgMatrix K) (par : List K) (sw : List Bool) (gm gv : K)
     (h : (sw.filter id).length = 0) : gvParmgen m par sw gm gv = par := by
-  sorry
+  unfold gvParmgen
+  simp [h]
 
 /-! ### non-interference in `Engine::generator` -/
 
@@ -58,30 +333,46 @@ theorem engineStream_congr (c c' : Condition K) (inp : EngineIn K) (durs : List 
     (hg : c.gvWeight[i]? = c'.gvWeight[i]?) (ht : c.msdThreshold[i]? = c'.msdThreshold[i]?)
     (hh : i = 1 → c.halfTone = c'.halfTone) :
     engineStream c inp durs i = engineStream c' inp durs i := by
-  sorry
+  unfold engineStream
+  rw [hg, ht]
+  by_cases hi : i = 1
+  · rw [hh hi]
+  · simp only [hi, if_false]
 
 /-- durations depend on the speed / alignment flag only -/
 theorem engineDurations_congr (c c' : Condition K) (b : Bool) (inp : EngineIn K)
     (ha : c.alignment = c'.alignment) (hs : c.speed = c'.speed) :
     engineDurations c b inp = engineDurations c' b inp := by
-  sorry
+  unfold engineDurations
+  rw [ha, hs]
 
 /-- `apply_additional_half_tone`: the static mean of every state becomes `clamp(m + h·HALF_TONE)`;
     variances, dynamic means and MSD weights are untouched; `h = 0` is the identity. -/
 theorem applyHalfTone_zero (stream : List (StateParam K)) : applyHalfTone stream 0 = stream := by
-  sorry
+  unfold applyHalfTone
+  rw [if_pos ((isZero_iff (0 : K)).2 rfl)]
 
 theorem applyHalfTone_spec (stream : List (StateParam K)) (h : K) (hh : h ≠ 0) :
     applyHalfTone stream h = stream.map fun s =>
       match s.params with
       | [] => s
       | p :: rest => { s with params := ⟨clampS (p.mean + h * Consts.halfTone) Consts.minLf0 Consts.maxLf0, p.vari⟩ :: rest } := by
-  sorry
+  unfold applyHalfTone
+  rw [if_neg (fun h0 => hh ((isZero_iff h).1 h0))]
+  rfl
 
 /-- the voiced/unvoiced pattern does not depend on the half tone -/
 theorem applyHalfTone_mask (stream : List (StateParam K)) (h thr : K) (durs : List Nat) :
     maskCreate (applyHalfTone stream h) thr durs = maskCreate stream thr durs := by
-  sorry
+  unfold applyHalfTone
+  split
+  · rfl
+  · unfold maskCreate
+    rw [List.map_map]
+    congr 1
+    apply List.map_congr_left
+    intro s _
+    rcases s with ⟨_ | ⟨p, rest⟩, msd⟩ <;> rfl
 
 /-! ### the whole pipeline -/
 
